@@ -66,6 +66,41 @@ redshift_dialect.update_keywords_set_from_multiline_string(
     "reserved_keywords", redshift_reserved_keywords
 )
 
+# Keywords which grammar elements of this dialect (including inherited
+# ones) refer to, but which are in neither keyword set.
+redshift_dialect.sets("unreserved_keywords").update(
+    [
+        "ALLOW_CONNECTIONS",
+        "COMMUTATOR",
+        "CORRELATION",
+        "CURRENT_SESSION",
+        "DEPENDENCIES",
+        "FORMATS",
+        "HASHES",
+        "ICU",
+        "IS_TEMPLATE",
+        "LC_COLLATE",
+        "LC_CTYPE",
+        "LEFTARG",
+        "LIBC",
+        "LOCALE",
+        "MCV",
+        "MERGES",
+        "NDISTINCT",
+        "NEGATOR",
+        "PERMISSIVE",
+        "POLICIES",
+        "PROVIDER",
+        "RESTRICTIVE",
+        "RIGHTARG",
+        "SKIP_LOCKED",
+        "SUMMARY",
+        "TIMING",
+        "VIRTUAL",
+        "WAL",
+    ]
+)
+
 redshift_dialect.sets("bare_functions").clear()
 redshift_dialect.sets("bare_functions").update(
     [
